@@ -1,5 +1,6 @@
 (* C03  Parsed output is a fixed point (mechanism-level theorems; the end-to-end fixed point over n cycles is
    established per run by the check, see DESIGN.md). *)
+From Coq Require Import String.   (* string literals of the examples; imported first so the list names win *)
 From Coq Require Import NArith ZArith List Bool.
 From DictIO Require Import Chars Str Value Scalar SDict Layout Lexer LayoutSpec LayoutProofs.
 Import ListNotations.
@@ -20,3 +21,16 @@ Theorem C03_counter_free_placeholder : forall w i j, (i < 1000000)%N -> (j < 100
   placeholder w i = placeholder w j -> i = j.
 Proof. exact placeholder_injective. Qed.
 Print Assumptions C03_counter_free_placeholder.
+
+(* non-vacuity: the three hypotheses hold together exactly when the ids agree (first part); used the other way round,
+   the theorem separates the placeholders of two different ids, also at the ends of the six-digit range *)
+Example C03_counter_free_placeholder_nonvacuous :
+  ((123456 < 1000000)%N /\ placeholder w_LINECOMMENT 123456 = placeholder w_LINECOMMENT 123456 /\
+   placeholder w_LINECOMMENT 123456 = of_string "LINECOMMENT123456") /\
+  placeholder w_BLOCKCOMMENT 0 = of_string "BLOCKCOMMENT000000" /\
+  placeholder w_BLOCKCOMMENT 0 <> placeholder w_BLOCKCOMMENT 999999 /\
+  placeholder w_INCLUDE 7 <> placeholder w_INCLUDE 70.
+Proof.
+  split; [vm_compute; repeat split; reflexivity|]. split; [vm_compute; reflexivity|].
+  split; intro H; apply C03_counter_free_placeholder in H; try reflexivity; discriminate H.
+Qed.
